@@ -614,6 +614,7 @@ def generate(rng, tier):
 def extra_checks(rng, tier, workdir):
     yield from _source_iterator_check()
     yield from _fault_checks(rng, tier)
+    yield from _failed_job_checks(rng, tier)
     yield from _threadpool_checks(rng, tier)
 
 
@@ -745,6 +746,147 @@ def _fault_checks(rng, tier):
                        f'action {["collect", "count", "take", "first"][kd]}({n if kd == 2 else ""}) on node {j}: got {got!r}, '
                        f'fault-free uncached result {want!r}', case)
                 break
+
+
+class _Faulty:
+    """A user function that raises on `bad` while `active` and `budget` (None = unlimited) lasts."""
+
+    def __init__(self, f, bad, budget):
+        self.f, self.bad, self.budget, self.active = f, bad, budget, True
+
+    def __call__(self, x):
+        if self.active and x == self.bad and (self.budget is None or self.budget > 0):
+            if self.budget is not None:
+                self.budget -= 1
+            raise ValueError('fault')
+        return self.f(x)
+
+
+def _failed_job_checks(rng, tier):
+    """Faults DOWNSTREAM of a persist mark, permanent (every retry: the job fails) or transient (the job
+    succeeds on a retry), followed by later actions on the persisted node and on descendants.  Judged from the
+    observed events alone: after an add() of (id of persisted node, k) was observed, no function of a node
+    upstream of that node may be called for partition k again while the entry is alive (no unpersist, younger
+    than the timeout) -- whatever happened to the job that computed it.  Local jobs only.  Oracle only."""
+    _install()
+    events = []
+    orig_add = CacheManager.add
+
+    def add_rec(self, ident, obj, storageLevel=None):
+        events.append(('add', ident, CLOCK.t))
+        return orig_add(self, ident, obj, storageLevel)
+    CacheManager.add = add_rec
+    try:
+        for _ in range(150 if tier == 'quick' else 2500):
+            del events[:]
+            CLOCK.t = 0
+            parts = [[rng.randint(-3, 6) for _ in range(rng.choice([1, 2, 3, 4]))] for _ in range(rng.choice([1, 2, 3]))]
+            up = [(rng.choice([MAP, MAP, FILTER, FLAT]), rng.randrange(6)) for _ in range(rng.choice([1, 1, 2]))]
+            mid = [(rng.choice([MAP, FILTER, FLAT]), rng.randrange(6)) for _ in range(rng.choice([0, 0, 1]))]
+            tail = [(rng.choice([MAP, FILTER]), rng.randrange(6)) for _ in range(rng.choice([0, 1]))]
+            fn_g = rng.randrange(6)
+            sts = up + [(PERSIST, 0)] + mid + [('G', fn_g)] + tail
+            if rng.random() < 0.4:
+                sts.append((PERSIST, 1))
+            gi = sts.index(('G', fn_g))                        # stage index of the faulty function; node gi + 1
+            plain_sts = [(MAP, fn) if tag == 'G' else (tag, fn) for tag, fn in sts]
+            g_inputs = [(k, x) for k, p in enumerate(parts) for x in _plain(plain_sts[:gi], p)]
+            if not g_inputs:
+                continue
+            bad = rng.choice(g_inputs)[1]
+            permanent = rng.random() < 0.6
+            tmo = rng.choice([None, None, 6, 50])
+            m = CacheManager() if tmo is None else TimedCacheManager(timeout=tmo)
+            sc = Context(cache_manager=m)
+            node = sc._parallelize_partitions([list(p) for p in parts])   # pylint: disable=protected-access
+            chain, persisted, faulty = [node], [], None
+            for n, (tag, fn) in enumerate(sts, 1):
+                def rec(f, n=n):
+                    def w(x):
+                        events.append(('call', n, CUR['part']))
+                        return f(x)
+                    return w
+                if tag == MAP:
+                    node = node.map(rec(LIB_MAP[fn]))
+                elif tag == FILTER:
+                    node = node.filter(rec(LIB_FILTER[fn]))
+                elif tag == FLAT:
+                    node = node.flatMap(rec(LIB_FLAT[fn]))
+                elif tag == 'G':
+                    faulty = _Faulty(LIB_MAP[fn], bad, None if permanent else rng.choice([1, 2]))
+                    node = node.map(faulty)
+                else:
+                    node = node.persist()
+                    persisted.append(n)
+                chain.append(node)
+            ids = {chain[n].id(): n for n in persisted}
+            history = []
+            if rng.random() < 0.4:
+                history.append(('act', rng.randint(1, gi), rng.choice([0, 2, 3]), rng.choice([1, 2])))
+            history.append(('act', rng.randint(gi + 1, len(sts)), rng.choice([0, 0, 1, 2]), 50))   # the job that hits the fault
+            for _ in range(rng.randint(1, 4)):
+                x = rng.random()
+                if x < 0.15 and tmo is not None:
+                    history.append(('advance', rng.choice([1, 2, 3])))
+                elif x < 0.3:
+                    history.append(('heal',))
+                elif x < 0.38:
+                    history.append(('unpersist', rng.choice(persisted)))
+                else:
+                    history.append(('act', rng.randint(1, len(sts)), rng.choice([0, 0, 1, 2, 3]), rng.choice([1, 2, 3, 50])))
+            case = ('failed-job', tmo, parts, sts, bad, 'permanent' if permanent else 'transient', history)
+            alive = {}
+            fail = None
+            for h in history:
+                start = len(events)
+                if h[0] == 'advance':
+                    CLOCK.t += h[1]
+                    continue
+                if h[0] == 'heal':
+                    faulty.active = False
+                    continue
+                if h[0] == 'unpersist':
+                    chain[h[1]].unpersist()
+                    for key in [key for key in alive if key[0] == h[1]]:
+                        del alive[key]
+                    continue
+                _, j, kd, n = h
+                flat = [x for p in parts for x in _plain(plain_sts[:j], p)]
+                want = flat if kd == 0 else len(flat) if kd == 1 else flat[:n] if kd == 2 else (flat[0] if flat else 'StopIteration')
+                try:
+                    nd = chain[j]
+                    got = (nd.collect() if kd == 0 else nd.count() if kd == 1 else nd.take(n) if kd == 2 else nd.first())
+                except StopIteration:
+                    got = 'StopIteration'
+                except ValueError:
+                    got = 'fault'
+                except Exception as e:  # pylint: disable=broad-except
+                    got = f'raised {type(e).__name__}'
+                if got != 'fault' and got != want:
+                    fail = ('failed-job:result-differs-from-uncached', f'step {h}: got {got!r}, uncached fault-free result {want!r}')
+                    break
+                for ev in events[start:]:
+                    if ev[0] == 'add':
+                        if ev[1][0] in ids:
+                            alive[(ids[ev[1][0]], ev[1][1])] = ev[2]
+                        continue
+                    _, stage_n, k = ev
+                    for (pn, kk), t_add in alive.items():
+                        # only actions on the persisted node or a descendant are judged (j >= pn)
+                        if kk == k and stage_n < pn <= j and (tmo is None or CLOCK.t - t_add < tmo):
+                            fail = ('failed-job:cached-partition-recomputed',
+                                    f'step {h}: the entry of partition {k} of persisted node {pn} was added at {t_add} '
+                                    f'(now {CLOCK.t}, timeout {tmo}), yet the function of node {stage_n} was called for '
+                                    f'partition {k} again')
+                            break
+                    if fail:
+                        break
+                if fail:
+                    break
+            if fail:
+                yield (fail[0], 'faults downstream of a persist mark', fail[1], case)
+    finally:
+        CacheManager.add = orig_add
 
 
 def _source_iterator_check():
